@@ -20,7 +20,7 @@ func runC08(outDir string, seed int64, tier string) {
 	start := time.Now()
 	sum := newSummary("C08", seed, tier)
 	r := &rng{s: uint64(seed) ^ hashString("C08")}
-	n := 1500
+	n := 2100
 	if tier == "thorough" {
 		n = 20000
 	}
@@ -87,6 +87,13 @@ func runC08(outDir string, seed int64, tier string) {
 				return ga(s)
 			}
 			a, b, c = mk(c08Pool[k/np]), mk(c08Pool[k%np]), mk(c08Pool[(k*5+3)%np])
+			pooled = true
+		}
+		if np, na := len(c08Pool), len(c08ArityTerms()); !pooled && i < 2*np*np+na*na {
+			// every pair of compounds over two names, arities 0-5 and two first arguments: arity decides before name
+			ts := c08ArityTerms()
+			k := i - 2*np*np
+			a, b, c = ts[k/na], ts[k%na], ts[(k*7+5)%na]
 			pooled = true
 		}
 		if !pooled && g.r.coin(0.4) {
@@ -258,7 +265,7 @@ func runC08(outDir string, seed int64, tier string) {
 			sum.Samples = append(sum.Samples, map[string]interface{}{"compare": key, "result": ab})
 		}
 	}
-	sum.Rule = "triples of terms (mostly ground; variables, floats vs integers, atoms ordered by text, one functor name at two arities, lists and character lists) rendered through random construction paths: compare/3 both ways and across the triple, ==/2, the five order operators, sort/2 on lists with duplicates, keysort/2 on lists of up to 41 pairs with few distinct keys; distinct by rendered pair; every case is non-trivial"
+	sum.Rule = "every pair of compounds over two names x arities 0-5 x two first arguments (arity decides before name); triples of terms (mostly ground; variables, floats vs integers, atoms ordered by text, one functor name at two arities, lists and character lists) rendered through random construction paths: compare/3 both ways and across the triple, ==/2, the five order operators, sort/2 on lists with duplicates, keysort/2 on lists of up to 41 pairs with few distinct keys; distinct by rendered pair; every case is non-trivial"
 	header := c02Header
 	shard := 1500
 	nf := 0
@@ -284,4 +291,27 @@ func runC08(outDir string, seed int64, tier string) {
 	}
 	poolTransitivity()
 	sum.write(outDir, start)
+}
+
+// c08ArityTerms: f and g with 0-5 arguments, the first one a or b
+func c08ArityTerms() []*G {
+	var out []*G
+	for _, name := range []string{"f", "g"} {
+		for n := 0; n <= 5; n++ {
+			for _, first := range []string{"a", "b"} {
+				if n == 0 {
+					if first == "a" {
+						out = append(out, ga(name))
+					}
+					continue
+				}
+				args := []*G{ga(first)}
+				for j := 1; j < n; j++ {
+					args = append(args, ga("c"))
+				}
+				out = append(out, gc(name, args...))
+			}
+		}
+	}
+	return out
 }
